@@ -2,7 +2,9 @@
     output is written in): fuelled big-step interpreter producing the bytes written
     to standard output and how the program ends.
     Deliberate simplifications (named in the trusted base):
-    - slices are immutable sequences ([append] never aliases);
+    - a slice is a window (address, length, capacity) onto a heap array and [append] writes in place while the
+      capacity lasts (so two appends to one slice value alias, as in Go); the growth policy is doubling, where the
+      Go runtime also rounds up to allocation size classes;
     - floats are not evaluated (a program that computes with floats is Unsupported);
     - [go f()] runs the call to completion at the spawn point (one schedule);
     - only the predeclared functions and fmt verbs the runtime uses are modelled. *)
@@ -19,7 +21,8 @@ Inductive val :=
 | VPtr (addr : nat)
 | VNil
 | VFunc (name : str)
-| VSeq (elems : list val)        (* arrays and slices *)
+| VSeq (elems : list val)        (* arrays (values) *)
+| VSlice (addr len cap : nat)    (* slices: a window onto the heap array at addr *)
 | VFloat (text : str).           (* carried, never computed with *)
 
 Inductive res (A : Type) :=
@@ -178,13 +181,32 @@ Definition builtin (name : str) (args : list val) (t : gty) (s : state) : res (v
     match args with
     | [VStr x] => Ok (VInt (Z.of_nat (length x)), s)
     | [VSeq l] => Ok (VInt (Z.of_nat (length l)), s)
+    | [VSlice _ l _] => Ok (VInt (Z.of_nat l), s)
     | [VNil] => Ok (VInt 0, s)
     | _ => Stuck 32
     end
   else if list_eqb name s_append then
+    (* Go: "if the capacity is not large enough append allocates a new array, otherwise it re-uses the underlying array" *)
+    let fresh := fun (old : list val) (more : list val) (c : nat) =>
+      let need := (length old + length more)%nat in
+      let newcap := Nat.max need (2 * c) in
+      Ok (VSlice (length (heap s)) need newcap,
+          {| heap := heap s ++ [VSeq (old ++ more ++ repeat VNil (newcap - need))]; out := out s |}) in
     match args with
     | VSeq l :: more => Ok (VSeq (l ++ more), s)
-    | VNil :: more => Ok (VSeq more, s)
+    | VNil :: more => match more with [] => Ok (VNil, s) | _ => fresh [] more 0%nat end
+    | VSlice a l c :: more =>
+        match nth_error (heap s) a with
+        | Some (VSeq cells) =>
+            if (l + length more <=? c)%nat then
+              let cells' := firstn l cells ++ more ++ skipn (l + length more) cells in
+              match set_nth (heap s) a (VSeq cells') with
+              | Some h => Ok (VSlice a (l + length more) c, {| heap := h; out := out s |})
+              | None => Stuck 33
+              end
+            else fresh (firstn l cells) more c
+        | _ => Stuck 33
+        end
     | _ => Stuck 33
     end
   else if list_eqb name s_string then
@@ -306,6 +328,12 @@ Fixpoint eval (fuel : nat) (e : expr) (rho : env) (s : state) {struct fuel} : re
             if (z <? 0) || (Z.of_nat (length l) <=? z) then Panic [105;110;100;101;120]%N (out s2) (* index out of range *)
             else match nth_error l (Z.to_nat z) with Some w => Ok (w, s2) | None => Stuck 6 end
         | VNil, VInt _ => Panic [105;110;100;101;120]%N (out s2)
+        | VSlice ad l _, VInt z =>
+            if (z <? 0) || (Z.of_nat l <=? z) then Panic [105;110;100;101;120]%N (out s2)
+            else match nth_error (heap s2) ad with
+                 | Some (VSeq cells) => match nth_error cells (Z.to_nat z) with Some w => Ok (w, s2) | None => Stuck 6 end
+                 | _ => Stuck 6
+                 end
         | VStr b, VInt z =>
             if (z <? 0) || (Z.of_nat (length b) <=? z) then Panic [105;110;100;101;120]%N (out s2)
             else match nth_error b (Z.to_nat z) with Some c => Ok (VInt (Z.of_N c), s2) | None => Stuck 6 end
